@@ -1,14 +1,14 @@
 #!/bin/bash
-# usage: selftest/run.sh <patch.diff> <property>...   — applies a patch to /repo, runs the quick checks, undoes it.
-# Prints one line per property: CAUGHT / MISSED / INCONCLUSIVE.
+# usage: selftest/run.sh <patch.diff> <property>...   — applies a patch to a scratch worktree of /repo (never to /repo itself), runs the
+# quick checks against it (VERIF_REPO), removes the worktree. Prints one line per property: CAUGHT / MISSED / INCONCLUSIVE.
 set -u
 patch=$(readlink -f "$1"); shift
-cd /repo || exit 2
-if [ -n "$(git status --porcelain)" ]; then echo "/repo is dirty"; exit 2; fi
-git apply "$patch" || { echo "patch does not apply: $patch"; exit 2; }
-trap 'cd /repo && git checkout -- . && git clean -fdq' EXIT
+wt=$(mktemp -d /tmp/selftest.XXXXXX)/wt
+trap 'git -C /repo worktree remove --force $wt 2>/dev/null; git -C /repo worktree prune; rm -rf $(dirname $wt)' EXIT
+git -C /repo worktree add --detach -q $wt HEAD || exit 2
+git -C $wt apply "$patch" || { echo "patch does not apply: $patch"; exit 2; }
 for p in "$@"; do
-  out=$(cd /verif && VERIF_EVIDENCE_DIR=/tmp/selftest-evidence ./check.sh "$p" quick 2>&1); rc=$?
+  out=$(cd /verif && VERIF_REPO=$wt VERIF_EVIDENCE_DIR=$(dirname $wt)/evidence ./check.sh "$p" quick 2>&1); rc=$?
   case $rc in
     1) echo "CAUGHT  $p $(basename "$patch"): $(echo "$out" | grep -m1 'signature:' )";;
     0) echo "MISSED  $p $(basename "$patch")";;
